@@ -378,6 +378,16 @@ pub fn boundary(idx: usize, seed: u64, w: &mut dyn Write, thorough: bool) -> Opt
             g.step(&Op::T20 { token: t.clone(), sender: "carol".into(), amount: 5, inner: Inner::CL { id: 22, create: create(&[(5, "uatom")]) } });
             g.step(&Op::T20 { token: t.clone(), sender: "carol".into(), amount: 5, inner: Inner::CL { id: 23, create: create(&[(5, "uatom")]) } });
             g.step(&x("bobby", natives(&[(5, JUNO_DENOM)]), MMsg::CL { id: 23, create: create(&[(5, "uatom")]) }));
+            // ids that a narrowing cast would fold onto ids already used (7, 8, 20…22) are fresh, and address
+            // the record they name and no other
+            for k in [1u64 << 8, 1 << 16, 1 << 32] {
+                g.step(&x("david", natives(&[(5, JUNO_DENOM)]), MMsg::CL { id: 7 + k, create: create(&[(5, "uatom")]) }));
+                g.step(&x("david", natives(&[(5, JUNO_DENOM)]), MMsg::CB { id: 8 + k }));
+                g.step(&x("david", natives(&[(3, "uatom")]), MMsg::AL { id: 7 + k }));
+                g.step(&x("alice", natives(&[(3, "uatom")]), MMsg::AB { id: 8 + k }));
+            }
+            g.step(&x("david", vec![], MMsg::DL { id: 7 + (1 << 32) }));
+            g.step(&x("david", vec![], MMsg::RB { id: 8 + (1 << 16) }));
             // sold + withdrawn: listing 9 / bucket 9
             g.step(&x("alice", natives(&[(500, JUNO_DENOM)]), MMsg::CL { id: 9, create: create(&[(5, "uatom")]) }));
             g.step(&x("alice", vec![], MMsg::FI { id: 9, seconds: 600 }));
@@ -682,7 +692,7 @@ pub fn boundary(idx: usize, seed: u64, w: &mut dyn Write, thorough: bool) -> Opt
                 thorough,
             );
             let colls = g.h.sim.cw721_addrs().to_vec();
-            for bps in [0u64, 9, 10, 11, 299, 300, 301, 5000, u64::MAX] {
+            for bps in [0u64, 9, 10, 11, 299, 300, 301, 5000, u64::MAX, (1 << 16) + 100, (1 << 32) + 300, u64::MAX - 65_535 + 250, (1 << 8) + 300] {
                 g.probe(&Op::R { sender: DEPLOYER.into(), msg: RMsg::Reg { nft: va(&colls[0]), payout: va(PAYOUTS[0]), bps } });
             }
             // not a contract / invalid / no-admin contract / wrong admin
@@ -703,6 +713,9 @@ pub fn boundary(idx: usize, seed: u64, w: &mut dyn Write, thorough: bool) -> Opt
                 g.probe(&Op::R { sender: DEPLOYER.into(), msg: RMsg::Upd { nft: va(&colls[0]), payout: Some(RawAddr::Invalid), bps: None } });
                 g.probe(&Op::R { sender: DEPLOYER.into(), msg: RMsg::Upd { nft: va(&colls[0]), payout: None, bps: Some(301) } });
                 g.probe(&Op::R { sender: DEPLOYER.into(), msg: RMsg::Upd { nft: va(&colls[0]), payout: None, bps: Some(9) } });
+                for wide in [(1u64 << 16) + 100, (1 << 32) + 10, u64::MAX - 65_535 + 250, u64::MAX] {
+                    g.probe(&Op::R { sender: DEPLOYER.into(), msg: RMsg::Upd { nft: va(&colls[0]), payout: None, bps: Some(wide) } });
+                }
                 g.probe(&Op::R { sender: DEPLOYER.into(), msg: RMsg::Rem { nft: va(&colls[0]) } });
                 g.probe(&Op::R { sender: "alice".into(), msg: RMsg::Rem { nft: va(&colls[0]) } });
                 g.probe(&Op::R { sender: "alice".into(), msg: RMsg::Upd { nft: va(&colls[0]), payout: None, bps: Some(200) } });
